@@ -157,7 +157,7 @@ def canon(x):
 # ------------------------------------------------------- stage drivers
 
 def run_precompute(ref, out_path, tmp_dir, n_processors=2, rows_at_a_time=3,
-                   normalization='raw'):
+                   normalization='raw', copy_data_over=False):
     from cell_type_mapper.taxonomy.taxonomy_tree import TaxonomyTree
     from cell_type_mapper.diff_exp.precompute_from_anndata import (
         precompute_summary_stats_from_h5ad_list_and_tree)
@@ -169,7 +169,8 @@ def run_precompute(ref, out_path, tmp_dir, n_processors=2, rows_at_a_time=3,
         rows_at_a_time=rows_at_a_time,
         normalization=normalization,
         tmp_dir=tmp_dir,
-        n_processors=n_processors)
+        n_processors=n_processors,
+        copy_data_over=copy_data_over)
     return out_path
 
 
